@@ -13,7 +13,7 @@ for D in /verif/seeded/C*-*; do
   OUT=$D/confirm_head.txt
   ( cd $WT && git checkout -q -- . && git clean -fdq -e _build
     run_demo() {
-      if [ -f $D/demo.sh ]; then ( cd $D && sed "s#/tmp/wt-C[0-9]*#$WT#g; s#/tmp/seed-C[0-9]*#$D#g" demo.sh > /tmp/demo_$S.sh && for f in demo_*.cpp demo_*.hpp; do [ -f $f ] && ln -sf $D/$f $D/B.$f 2>/dev/null; done; sh /tmp/demo_$S.sh >/dev/null 2>&1 ); R=$?; rm -f $D/B.demo_* /tmp/demo_$S.sh; return $R; fi
+      if [ -f $D/demo.sh ]; then ( NITRO_INC=$WT/include sh $D/demo.sh >/dev/null 2>&1 ); return $?; fi
       g++ -std=gnu++17 -O1 -I$WT/include $D/demo.cpp $WT/_build/libnitro-options.a $WT/_build/libnitro-env.a -ldl -pthread -o /tmp/demo_$S 2>/dev/null || return 99
       ( cd $D && timeout 120 /tmp/demo_$S >/dev/null 2>&1 ); R=$?; rm -f /tmp/demo_$S; return $R
     }
